@@ -10,7 +10,7 @@
    statements squeezed into one empty statement as the formatter squeezes them (the stated
    normalisation; comments are outside the fragment because Parser.v's trees do not carry them).
    _partial — fragment: the statements of [sok] (declarations, assignment to a variable, calls,
-   while, if / else if / else, break / return inside them), no func, no on, no for, no a[i] = v;
+   while, for, if / else if / else, break / return inside them), no func, no on, no a[i] = v;
    lexical hypothesis, decidable, not yet proved from the fragment: no formatted token is ILLEGAL
    or the keyword func (the pre-pass scans the raw token list for `func`). *)
 From Coq Require Import List String NArith ZArith Bool Arith.
@@ -39,7 +39,7 @@ Print Assumptions C06_roundtrip_program_partial.
    the contexts threaded through blocks and else-if chains) and accept_structure (break / return
    placement, no dead code; no top-level statement always terminates).
    What remains a hypothesis besides the lexical one is per expression, [eokb]: names are identifiers,
-   the statement forms are those of the fragment (no comments, no for / func / on, targets are
+   the statement forms are those of the fragment (no comments, no func / on, targets are
    variables), blocks are not empty, a called name is in the function table with a matching argument
    count, and every expression is in the round-trip fragment of C06_roundtrip.v ([top_ok] /
    [item_ok]) in the context the scope checker computes for its position.
@@ -78,7 +78,8 @@ Theorem C06_roundtrip_program_loop_partial :
 Proof. exact program_loop_roundtrip. Qed.
 Print Assumptions C06_roundtrip_program_loop_partial.
 
-(* non-vacuity: the model runs.   i := 0 / (blank) / while i < 3 / i = i + 1 / end / print i *)
+(* non-vacuity: the model runs.   i := 0 / (blank) / while i < 3 / i = i + 1 / end /
+   for k := range 1 i 2 / print k i / end / for range 2 / print i / end / print i *)
 Definition C06_prog_B : benv :=
   {| b_funcs := [(s_ "print"%string, false)]; b_arity := []; b_globals := []; b_events := []; b_tyerr := fun _ _ _ => false |}.
 Example C06_program_example :
@@ -87,6 +88,9 @@ Example C06_program_example :
   let p := [FmtAst.SInferredDecl (s_ "i"%string) (num "0"%string) [];
             FmtAst.SEmpty []; FmtAst.SEmpty [];
             FmtAst.SWhile (FBin OpLt false i (num "3"%string)) [] [FmtAst.SAssign i (FBin OpPlus false i (num "1"%string)) []] [];
+            FmtAst.SFor (Some (s_ "k"%string)) (RStep (Some (num "1"%string)) i (Some (num "2"%string))) []
+              [FmtAst.SCall (s_ "print"%string) [FVar (s_ "k"%string); i] []] [];
+            FmtAst.SFor None (RExpr (num "2"%string)) [] [FmtAst.SCall (s_ "print"%string) [i] []] [];
             FmtAst.SCall (s_ "print"%string) [i] []] in
   let toks := toks_of_pieces (fmt_prog current_fixes p) in
   parse C06_prog_B (combine toks (map (fun _ => (0, 0)) toks)) (0, 0) = Accept (body_trees false p).
